@@ -259,3 +259,25 @@ pub fn build_join_accept(key: &[u8; 16], mhdr: u8, join_nonce: &[u8; 3], net_id:
     }
     enc
 }
+
+/// Decrypt a JoinAccept under `key`, let `f` alter the four plaintext MIC octets, re-encrypt.
+pub fn retag_join_accept(key: &[u8; 16], frame: &[u8], f: impl Fn(&mut [u8])) -> Option<Vec<u8>> {
+    if frame.len() != 17 && frame.len() != 33 {
+        return None;
+    }
+    let mut plain = vec![frame[0]];
+    for block in frame[1..].chunks(16) {
+        let mut b = [0u8; 16];
+        b.copy_from_slice(block);
+        plain.extend_from_slice(&aes_enc(key, &b));
+    }
+    let n = plain.len();
+    f(&mut plain[n - 4..]);
+    let mut out = vec![frame[0]];
+    for block in plain[1..].chunks(16) {
+        let mut b = [0u8; 16];
+        b.copy_from_slice(block);
+        out.extend_from_slice(&aes_dec(key, &b));
+    }
+    Some(out)
+}
